@@ -8,6 +8,7 @@ substance table of Chem.tla and the configured default densities:
   one enzyme amount unit         = VolPer(E) * v * 1e-3 * rho_enz             U
   specific_activity              = VolPer(E) * rho_enz / (MassPer(E) * rho_solid)   U/g
 """
+import os
 from fractions import Fraction as F
 import zlib
 
@@ -66,8 +67,14 @@ class Inst:
     def specific_activity(self, s="E"):
         return VOLPER[s] * self.rho_enz / (MASSPER[s] * self.rho_solid)
 
+    # VERIF_COLLIDE=<model substance>:<name>: that substance carries the NAME of a container of the instance (a bottle of
+    # water called 'u' and the substance water called 'u'): names of substances and of containers are different namespaces
+    COLLIDE = dict(x.split(":") for x in os.environ.get("VERIF_COLLIDE", "").split(",") if ":" in x)
+
     def _make(self, s):
         S = self.pp.Substance
+        if s in self.COLLIDE and KIND[s] == "liquid":
+            return S.liquid(self.COLLIDE[s], float(self.mol_weight(s)), float(self.density(s)))
         if KIND[s] == "liquid":
             return S.liquid("sub" + s, float(self.mol_weight(s)), float(self.density(s)))
         if KIND[s] == "solid":
@@ -83,6 +90,9 @@ class Inst:
             return "F"
         if n.startswith("sub") and n[3:] in KIND:
             return n[3:]
+        for m, nm in self.COLLIDE.items():
+            if n == nm:
+                return m
         return None
 
     # ---- scales (real base units per model unit) ---------------------------------------------------------
